@@ -1394,7 +1394,9 @@ COQ_TAGS = ["LITERAL_NONE", "LITERAL_INT", "LITERAL_STR", "LIST_GEN", "LIST_INT"
             "CONDITIONAL_EXPR", "FUNC_DEF_STMT", "CLASS_DEF", "DICT_STR_GEN", "DECORATOR", "SET_EXPR", "DICT_EXPR", "INDEX_EXPR",
             "SLICE_EXPR", "STAR_EXPR", "LAMBDA_EXPR", "OPERATOR_ASSIGNMENT_STMT", "BREAK_STMT", "CONTINUE_STMT", "GLOBAL_DECL",
             "NONLOCAL_DECL", "DEL_STMT", "ASSERT_STMT", "RAISE_STMT", "IMPORT", "IMPORT_FROM", "IMPORT_ALL", "WITH_STMT", "TRY_STMT",
-            "TEMP_NODE", "UNBOUND_TYPE", "UNION_TYPE"]
+            "TEMP_NODE", "UNBOUND_TYPE", "UNION_TYPE", "ELLIPSIS_EXPR", "GENERATOR_EXPR", "LIST_COMPREHENSION", "SET_COMPREHENSION",
+            "DICT_COMPREHENSION", "YIELD_EXPR", "YIELD_FROM_EXPR", "AWAIT_EXPR", "ASSIGNMENT_EXPR", "BYTES_EXPR", "FLOAT_EXPR",
+            "COMPLEX_EXPR", "LITERAL_FLOAT"]
 BINOP_C = {"+": "Add", "-": "Sub", "*": "Mult", "@": "MatMult", "/": "Div", "%": "Mod", "**": "Pow", "<<": "LShift", ">>": "RShift",
            "|": "BitOr", "^": "BitXor", "&": "BitAnd", "//": "FloorDiv"}
 CMPOP_C = {"==": "Eq", "!=": "NotEq", "<": "Lt", "<=": "LtE", ">": "Gt", ">=": "GtE", "is": "Is", "is not": "IsNot", "in": "In", "not in": "NotIn"}
@@ -1450,6 +1452,29 @@ def cq_expr(e: list) -> str:
         return f"(EStar {cq_pos(e[1])} {cq_expr(e[2])})"
     if k == "ELambda":
         return f"(ELambda {cq_pos(e[1])} {cq_params(e[2])} {cq_expr(e[3])})"
+    if k == "EYield":
+        return f"(EYield {cq_pos(e[1])} {cq_oe(e[2])})"
+    if k in ("EYieldFrom", "EAwait"):
+        return f"({k} {cq_pos(e[1])} {cq_expr(e[2])})"
+    if k == "EWalrus":
+        return f"(EWalrus {cq_pos(e[1])} {cq_pos(e[2])} {cq_s(e[3])} {cq_expr(e[4])})"
+    if k == "EBytes":
+        return f"(EBytes {cq_pos(e[1])} {cq_s(e[2])})"
+    if k == "EFloat":
+        return f"(EFloat {cq_pos(e[1])} {cq_z(e[2])})"
+    if k == "EComplex":
+        return f"(EComplex {cq_pos(e[1])} {cq_z(e[2])} {cq_z(e[3])})"
+    if k == "EConst":
+        return f"(EConst {cq_pos(e[1])} {e[2]})"
+    if k == "EEllipsis":
+        return f"(EEllipsis {cq_pos(e[1])})"
+    if k in ("EComp", "EDictComp"):
+        g = "GNil"
+        for x in reversed(e[-1]):
+            g = f"(GCons {cq_expr(x[1])} {cq_expr(x[2])} {cq_exprs(x[3])} {g})"
+        if k == "EComp":
+            return f"(EComp {cq_pos(e[1])} {e[2]} {cq_expr(e[3])} {g})"
+        return f"(EDictComp {cq_pos(e[1])} {cq_expr(e[2])} {cq_expr(e[3])} {g})"
     if k == "EName":
         return f"(EName {cq_pos(e[1])} {cq_s(e[2])})"
     if k == "EInt":
@@ -1714,6 +1739,18 @@ FRAG_FIXED = [
     "x: int\n", "x: int = 1\n", "x: a.b.C = f()\n", "x: None = None_\n", "x: list[int] = []\n", "x: dict[str, list[a.B]]\n", "x: A | B\n",
     "x: A | B | None = 1\n", "x: t[()]\n", "x: t[A | B, None]\n", "(x): int = 1\n", "a.b: int = 1\n", "a[0]: C\n", "x: (int)\n", "x: t[\n  A,\n  B]\n",
     "class K:\n    y: int\n    z: Opt[K] = None_\n", "x: 'int'\n", "x: 1\n", "x: t[1]\n", "x: f()\n",
+    # final round: constants and comprehensions
+    "None\n", "x = None, True, False, ...\n", "f(None, k=True)\n", "x: int = None\n", "def f(a=None, *, b=False): return ...\n", "a[...]\n",
+    "if x is None: pass\n", "while True:\n    break\n", "assert not False, None\n",
+    "[a for b in c]\n", "[a for b in c if d if e for f in g]\n", "{a for b in c}\n", "(a for b in c)\n", "{k: v for k in z}\n",
+    "{k: v for k, v in z if k if v for w in k}\n", "x = [i + 1 for i in range(3) if i]\n", "f((a for a in b))\n", "f(a for a in b)\n",
+    "f(x, (a for a in b), k=[c for c in d])\n", "[(i, j) for i in a for j in b]\n", "[[j for j in i] for i in m]\n", "sum(x for x in y)\n",
+    "[a async for a in b]\n", "[a for a.b in c]\n", "[a for a, *b in c]\n", "[lambda: a for a in b]\n", "[a for a in (b)]\n", "( a for a in b )\n",
+    "x = {a: b for a, b in c}.y[0]\n", "[a\n for a in b\n if a]\n",
+    "def g():\n    x = yield\n    y = yield a, b\n    z = yield from g()\n    return (yield)\n", "yield\n", "x = yield a\n", "def f():\n    await x\n",
+    "await (a)\n", "f(await a, (yield))\n", "if (n := 10) > 5: pass\n", "x = (y := f(1))\n", "[y := 1, y]\n", "f(a := 1)\n", "while (c := g()):\n    c\n",
+    "x = b'ab'\n", "f(b'', b'a b', b'a' b'b')\n", "x = b'\\x00\\n'\n", "x = br'\\d'\n", "x = 1.5\n", "x = 2j\n", "lambda: (yield)\n", "[(z := i) for i in a]\n",
+    "x = 0.0, 1e10, .5, 5., 1e-3, 1_0.0_1, 1e999, 3.14j, 0j\n", "f(1.0, k=2.5)\n", "x = -1.5 + 2j\n",
 ]
 
 
@@ -1724,8 +1761,23 @@ def gen_frag_programs(rng: "vlib.Rng", n: int) -> list[str]:
 
     def expr(d: int) -> str:
         k = rng.choice(["name", "name", "int", "str", "attr", "call", "bin", "bin", "unary", "cmp", "bool", "ifexp", "tuple", "list", "paren",
-                        "set", "dict", "sub", "slice", "lambda", "starlist"]) if d > 0 \
-            else rng.choice(["name", "int", "str"])
+                        "set", "dict", "sub", "slice", "lambda", "starlist", "const", "comp", "comp"]) if d > 0 \
+            else rng.choice(["name", "int", "str", "const"])
+        if k == "const":
+            return rng.choice(["None", "True", "False", "...", "b'ab'", "b''", "(yield)", "(yield x)", "(yield from y)", "(await x)", "(w := 1)", "(w := a.b)", "1.5", "0.25", "1e3", "2j"])
+        if k == "comp":
+            clauses = []
+            for _ in range(rng.choice([1, 1, 2])):
+                cl = f"for {rng.choice(['i', 'j', 'i, j', 'v.w'])} in {operand(d - 1)}"
+                for _ in range(rng.choice([0, 0, 1, 2])):
+                    cl += f" if {operand(d - 1)}"
+                clauses.append(cl)
+            body = " ".join(clauses)
+            kind = rng.choice(["list", "set", "gen", "dict"])
+            if kind == "dict":
+                return "{" + f"{operand(d - 1)}: {operand(d - 1)} {body}" + "}"
+            o, c = {"list": "[]", "set": "{}", "gen": "()"}[kind]
+            return f"{o}{operand(d - 1)} {body}{c}"
         if k == "set":
             return "{" + ", ".join(expr(d - 1) for _ in range(rng.randint(1, 3))) + "}"
         if k == "dict":
@@ -1959,6 +2011,18 @@ def frag_stage(ctx: "vlib.Ctx", pool: Pool) -> None:
             n_agree += 1
         else:
             n_disagree += 1
+    # how often each source form occurs in the tied programs (constructor names of Model.v)
+    forms: dict[str, int] = {}
+
+    def count_forms(t: Any) -> None:
+        if isinstance(t, list):
+            if t and isinstance(t[0], str) and re.match(r"^(E|S|Ty)[A-Z]", t[0]):
+                forms[t[0]] = forms.get(t[0], 0) + 1
+            for y in t:
+                count_forms(y)
+    for _, x in items:
+        count_forms(x["tree"])
+    ctx.cov["fragment_forms_tied"] = dict(sorted(forms.items(), key=lambda kv: -kv[1]))
     ctx.add("traces_validated_against_impl", n_ok)
     ctx.add("evaluations", len(items) * 3)
     ctx.cov["fragment"] = {"programs": len(sources), "in_fragment": len(items), "model_matches_both_real_converters_and_bytes": n_ok,
